@@ -146,6 +146,11 @@ type wuffsBuild struct {
 	cleanup func()
 }
 
+// toolsError: cmd/wuffs or cmd/wuffs-c (the compiler, outside this property's anchors) do not build.
+type toolsError struct{ err error }
+
+func (e *toolsError) Error() string { return e.err.Error() }
+
 // genStdSubset is hlib.GenStd restricted to base + std/xz and its dependencies (std/lzma, std/crc32,
 // std/crc64, std/sha256): tools built from the working tree, scratch copy, `wuffs gen base std/xz`.
 func genStdSubset(repo string) (*hlib.StdBuild, error) {
@@ -157,7 +162,7 @@ func genStdSubset(repo string) (*hlib.StdBuild, error) {
 	}
 	if err := hlib.BuildTools(repo, sb.BinDir); err != nil {
 		cleanup()
-		return nil, err
+		return nil, &toolsError{err}
 	}
 	if err := hlib.CopyRepo(repo, sb.Scratch, "/test", "/example", "/doc", "/fuzz", "/script", "/release", "/lib", "/hello-wuffs-c"); err != nil {
 		cleanup()
